@@ -491,7 +491,7 @@ def clauses(tier):
             "encode a drawn program, decode with read_signal (stream, and a .sph path for ~1/6), compare all samples and "
             "the shape; non-trivial = >= 2 distinct block commands, >= 2 blocks per channel and one of "
             "{QLPC, BITSHIFT>0, BLOCKSIZE, ZERO, multi-channel}; distinct by the whole program",
-            programs, quick=700, thorough=80000, sample_fmt=_fmt,
+            programs, quick=1500, thorough=120000, sample_fmt=_fmt,
          fuzz_runs=2500),
         Clause(
             "vectors", check_vector,
@@ -504,6 +504,6 @@ def clauses(tier):
             "streams cut after every byte position behind the magic (all positions for streams <= 2 KiB), an undefined "
             "command code at any command position, version bytes outside {1,2}: IOError and nothing else; "
             "non-trivial = at least two blocks before the cut / code not at the first command",
-            _error_cases, quick=150, thorough=16000, sample_fmt=_fmt,
+            _error_cases, quick=400, thorough=24000, sample_fmt=_fmt,
          fuzz_runs=2500),
     ]
